@@ -625,6 +625,7 @@ Lemma after_ok c s ph fr ec' c2 l' h' cA sX :
   (st_headersFinished sX = false -> ec' = sf_sid fr) -> (ec' <> 0 -> st_headersFinished sX = false) ->
   (st_state (handle_state fr sX) <> SClosed -> RS.request_step (ph (sf_sid fr)) (abs_frame fr) = phase_of (handle_state fr sX)) ->
   (sf_kind fr = KRst -> st_responded sX = true -> st_handlerRunning sX = false -> has_more_to_send sX = true ->
+   (st_pending sX = [] \/ (0 < zmin (st_window sX) (sc_clientWindow cA))%Z) ->
    known_deviation hstate c s (RFrame fr) = true) ->
   feed c (IIn (RFrame fr)) = fst (after_frame cfg cA sX fr (sc_closing c)) ->
   G c s ph (RFrame fr) (feed c (IIn (RFrame fr))).
@@ -778,7 +779,12 @@ Proof.
            ++ right. left. exact DI1.
            ++ intro Hne. exfalso. apply Hne, EC0.
            ++ destruct (fkind_eqb (sf_kind fr) KRst) eqn:KR.
-              ** right. apply fkind_eqb_eq in KR. apply Hdev; congruence.
+              ** right. apply fkind_eqb_eq in KR. apply Hdev; try congruence.
+                 destruct (st_pending sX) as [|p0 pt] eqn:EP; [left; reflexivity | right].
+                 destruct (Z_lt_le_dec 0 (zmin (st_window sX) (sc_clientWindow cA))) as [L|L]; [exact L | exfalso].
+                 assert (P1 : st_pending s1 <> []) by (rewrite S1; cbn; rewrite EP; discriminate).
+                 assert (W1 : (zmin (st_window s1) (sc_clientWindow cA) <= 0)%Z) by (rewrite S1; exact L).
+                 pose proof (send_data_stalled hstate cA s1 P1 W1) as X. rewrite SD in X. discriminate.
               ** left. apply policy_allowed; auto. apply fkind_eqb_neq, KR.
            ++ apply (outs_on_one _ _ _ Fd). intros so [<-|[]]. left. reflexivity.
            ++ rewrite Q1. cbn [next_st]. rewrite Xhcr. unfold sF. cbn. rewrite Wr.
